@@ -12,7 +12,7 @@ For each candidate dir (patch.diff, demo.py, meta.json):
 import glob, json, os, shutil, subprocess, sys, xml.etree.ElementTree as ET
 
 HERE = os.path.dirname(os.path.dirname(os.path.abspath(__file__)))
-WT = "/tmp/confirm-wt"
+WT = os.environ.get("CONFIRM_WT", "/tmp/confirm-wt")
 PY = "/venv/bin/python"
 
 
@@ -21,7 +21,7 @@ def sh(cmd, cwd=None, timeout=900):
 
 
 def suite(cwd):
-    out = "/tmp/confirm-junit.xml"
+    out = WT.rstrip("/") + "-junit.xml"
     r = sh(f"{PY} -m pytest -q -p no:cacheprovider --timeout=900 --continue-on-collection-errors --junitxml={out} 2>&1 | tail -1", cwd)
     base = set(json.load(open("/root/.vp/BASELINE.json"))["stable_pass"])
     passed = set()
